@@ -12,6 +12,7 @@ import rltie
 import vlib
 import c08tables
 import c08points
+import c08active
 
 LEVEL = "proof"
 PID = "C08"
@@ -418,6 +419,8 @@ def run(res, tier, seed, replay_script=None):
         c08tables.run(res, tier, seed)
         # the point sets of Global / Fourier grids: generateNestedPoints, active tensors, needed = new minus loaded (Properties_C08_points.v, exact tie)
         c08points.run(res, tier, seed)
+        # maximal tensors have weight one, every tensor is dominated by an active one: points = full blocks of the ACTIVE tensors, unconditionally (Properties_C08_active.v)
+        c08active.run(res)
     rltie.report(res, rl_break)
     if proof_broken and not res.violations:
         res.violation("proof", "proof obligations of Properties_C08.v no longer check (%d/%d) %s" % (props["discharged"], props["obligations"], res.coverage["forbidden_tokens"][:2]),
